@@ -96,7 +96,7 @@ func runC18(m *Sim) {
 		call("DumpLogEntries", func() { mp, order = lg.DumpLogEntries() })
 		md.expire(time.Now())
 		total := 0
-		for l := range mp {
+		for _, l := range sortedKeys(mp) {
 			total += 2 * len(l)
 			if len(l) > md.maxLine {
 				m.Fail("C18.truncate", site, "a stored line has %d bytes, the per-line limit is %d", len(l), md.maxLine)
@@ -113,7 +113,8 @@ func runC18(m *Sim) {
 		if len(mp) != len(md.entries) {
 			m.Fail("C18.account", site, "the log holds %d lines, the reference model %d", len(mp), len(md.entries))
 		}
-		for l, e := range md.entries {
+		for _, l := range sortedKeys(md.entries) {
+			e := md.entries[l]
 			ts, ok := mp[l]
 			if !ok {
 				m.Fail("C18.account", site, "line %q (last update %v) is missing from the log", short(l), e.last().UnixNano())
@@ -231,7 +232,8 @@ func runC18(m *Sim) {
 					for _, e := range evicted {
 						freedBytes += 2 * len(e.line)
 					}
-					for l, e := range md.entries {
+					for _, l := range sortedKeys(md.entries) {
+						e := md.entries[l]
 						if _, ok := mp[l]; ok && e.last().Before(newestEvicted) {
 							m.Fail("C18.evict-order", "order", "line last updated at %v was kept while a line last updated at %v was evicted", e.last().UnixNano(), newestEvicted.UnixNano())
 						}
